@@ -435,7 +435,7 @@ def loop_values(rng, n, order):
 
 
 def loop_ctx(rng, variant):
-    s = Script('httploop', 'httploop ctx %s' % variant)
+    s = Script('httploop', 'httploop ctx %s' % variant, **(dict(timeout_s=10, interval_s=3) if variant == 'unreachable-after-timeout' else {}))
     g = ValGen(rng)
     s.ctl('dial', end='A', addr='B')
     w = s.op('w', end='A', addr='B', v=hval(g, 'srcA', small=True))
@@ -459,6 +459,25 @@ def loop_ctx(rng, variant):
         r = s.op('r', end='A', addr='nowhere')
         w = s.op('w', end='A', addr='nowhere', v=hval(g, 'srcA', small=True))
         s.wait([w, r])
+        s.ctl('q')
+    elif variant in ('unreachable-twice', 'unreachable-after-timeout'):
+        # a second failing Write on the connection a first failure (or the idle-timeout tick) has already
+        # closed: an error, like the first, and nothing else
+        s.ctl('dial', end='A', addr='nowhere')
+        r = s.op('r', end='A', addr='nowhere')
+        if variant == 'unreachable-after-timeout':
+            s.ctl('tick', s=14)
+            s.wait([r])
+        else:
+            w = s.op('w', end='A', addr='nowhere', v=hval(g, 'srcA', small=True))
+            s.wait([w, r])
+        s.ctl('q')
+        for _ in range(2):
+            w2 = s.op('w', end='A', addr='nowhere', v=hval(g, 'srcA', small=True))
+            s.wait([w2])
+            s.ctl('q')
+        r2 = s.op('r', end='A', addr='nowhere')
+        s.wait([r2])
         s.ctl('q')
     elif variant == 'blocked-read':
         r = s.op('r', end='B', addr='A')
@@ -530,7 +549,7 @@ def generate(tier, rng):
         out.append(websocket_ctx(rng, 'blocked-write', False))
         for v in ('blocked-read', 'pre-read', 'blocked-serve', 'pre-serve', 'pre-serve-reader', 'fresh-blocked-serve'):
             out.append(http_ctx(rng, v))
-        for v in ('blocked-write', 'pre-write', 'unreachable', 'blocked-read'):
+        for v in ('blocked-write', 'pre-write', 'unreachable', 'unreachable-twice', 'unreachable-after-timeout', 'blocked-read'):
             out.append(loop_ctx(rng, v))
     # raw inputs: ~500 (quick) / ~20000 (thorough)
     for _ in range(10 if quick else 330):
